@@ -220,7 +220,12 @@ Inv_C02d(o) ==
      (o.pt.infl < o.maxInFlight =>
         \A c \in Calls(o) : ~(o.call[c].st = "started" /\ o.call[c].polled /\ o.call[c].id < 0 /\ ~o.call[c].afterDone
                                 /\ ~SendFailed(o, c)))
-Inv_C02(o) == Inv_C02a(o) /\ Inv_C02b(o) /\ Inv_C02c(o) /\ Inv_C02d(o)
+(* a deadline timer firing is an enabling event like any other: whatever the sink is doing, at a settle point no      *)
+(* transmitted call is still pending a millisecond past its deadline (the same condition as Inv_C05b, read as a wake-up) *)
+Inv_C02e(o) ==
+  (AtPoint(o) /\ o.pt.alive /\ ~o.panic) =>
+     \A c \in Calls(o) : ~(o.call[c].st = "started" /\ o.call[c].polled /\ o.call[c].id >= 0 /\ o.now >= o.call[c].dl + 1)
+Inv_C02(o) == Inv_C02a(o) /\ Inv_C02b(o) /\ Inv_C02c(o) /\ Inv_C02d(o) /\ Inv_C02e(o)
 
 (* ------------------------------------------------------------------ C03 *)
 Inv_C03a(o) == \A i \in DOMAIN o.wire : o.wire[i].kind = "cancel" => Cardinality(CancelsOf(o, o.wire[i].id)) <= 1
